@@ -231,6 +231,13 @@ Proof.
       exists st'. split.
       * cbn [run_actions]. rewrite cut_off_plain, R1. exact R.
       * eapply sv_eq_trans; [exact V'|]. simpl. now apply set_pins_sv.
+    + (* a line naming eups: as another line *)
+      cbn [exact_actions pins_of] in *. rewrite <- app_assoc.
+      destruct (run_simple (setup w cfg (S f)) 0 false (interp t) (exact_actions interp V ++ tail) st
+                           (pin_decisions (pins_of V) ++ ds) (Hi t)) as [st1 [R1 V1]].
+      destruct (IH tail st1 ds Hd Hs ND) as [st' [R V']].
+      { intros x I. rewrite V1 by apply setup_var_is. now apply Fr. }
+      exists st'. split; [now rewrite R1|]. eapply sv_eq_trans; [exact V'|]. now apply set_pins_sv.
 Qed.
 
 (* optional dependencies that no longer resolve (the implicit product at the end of every table) *)
